@@ -35,7 +35,7 @@ SUITE = [
 
 def asan_cfgs(tier):
     if tier == "quick":
-        return [Cfg("asm", 4, 2, 4, instr="asan"), Cfg("c64", 3, 3, 3, instr="asan"), Cfg("c32", 2, 1, 2, instr="asan"), Cfg("dxor", 4, 2, 4, instr="asan"), Cfg("generic", 4, 2, 4, instr="asan")]
+        return [Cfg("asm", 4, 2, 4, instr="asan"), Cfg("c64", 3, 3, 3, instr="asan"), Cfg("c32", 2, 1, 2, instr="asan"), Cfg("dxor", 4, 4, 4, instr="asan"), Cfg("generic", 4, 2, 4, instr="asan")]
     return [Cfg(b, *t, instr="asan") for b in ("asm", "c64", "c32", "dxor", "generic") for t in ((4, 2, 4), (3, 3, 3), (2, 1, 2), (4, 4, 4), (3, 1, 3), (4, 3, 4), (2, 2, 2))]
 
 
